@@ -19,6 +19,18 @@ theorem C25_stop_unknown_or_same (search : Nat → Option Ans) (j fuel k : Nat) 
 theorem C25_stop_before_start (search : Nat → Option Ans) (fuel : Nat) : solveLoop search (some 0) fuel 0 = .unknown :=
   stop_before_start search fuel
 
+/-- a definitive answer of a stopped run is the answer of the undisturbed run -/
+theorem C25_definitive_same (search : Nat → Option Ans) (j fuel k : Nat) (a : Ans) (ha : a ≠ .unknown)
+    (h : solveLoop search (some j) fuel k = a) : solveLoop search none fuel k = a := stop_definitive_same search j fuel k a ha h
+/-- a request seen from round `j` on gives `unknown` when no earlier round decides -/
+theorem C25_undecided_unknown (search : Nat → Option Ans) (j fuel k : Nat)
+    (hund : ∀ i, k ≤ i → i < j → search i = none) : solveLoop search (some j) fuel k = .unknown :=
+  stop_undecided_unknown search j fuel k hund
+/-- a later request disturbs no more than an earlier one -/
+theorem C25_later_same (search : Nat → Option Ans) (j j' fuel k : Nat) (hjj : j ≤ j') (a : Ans) (ha : a ≠ .unknown)
+    (h : solveLoop search (some j) fuel k = a) : solveLoop search (some j') fuel k = a :=
+  stop_later_same search j j' fuel k hjj a ha h
+
 example : solveLoop (fun k => if k = 3 then some .unsat else none) (some 5) 10 0 = .unsat ∧
           solveLoop (fun k => if k = 3 then some .unsat else none) (some 2) 10 0 = .unknown := by decide
 
